@@ -28,6 +28,12 @@ func verifCfg(t string) *ProcessConfig {
 		LivenessProbe: &health.Probe{HttpGet: &health.HttpProbe{Host: verifStrAny(t+".live_host", 3), Port: verifStrAny(t+".live_port", 3)},
 			InitialDelay: verifInt(t + ".live_delay")},
 	}
+	// a second dependency is there or not (the set of dependencies is launch-relevant, not
+	// only the conditions of the dependencies both configurations name)
+	if verifChoose(2) == 1 {
+		verifShape(t + ":two.deps")
+		c.DependsOn["dep2"] = ProcessDependency{Condition: ProcessConditionCompleted}
+	}
 	// executable and arguments are derived by the real code from command / entrypoint,
 	// as the loader and UpdateProcess do
 	if verifChoose(2) == 0 {
@@ -72,6 +78,7 @@ func VerifC14_Compare() {
 	verifAssert("shutdown", verifAnd(verifAnd(sa.ShutDownCommand == sb.ShutDownCommand, sa.ShutDownTimeout == sb.ShutDownTimeout),
 		verifAnd(sa.Signal == sb.Signal, sa.ParentOnly == sb.ParentOnly)))
 	verifAssert("depends_on", a.DependsOn["dep"].Condition == b.DependsOn["dep"].Condition)
+	verifAssert("depends_on.same.set", len(a.DependsOn) == len(b.DependsOn))
 	verifAssert("readiness_probe", verifAnd(a.ReadinessProbe.Exec.Command == b.ReadinessProbe.Exec.Command,
 		verifAnd(a.ReadinessProbe.PeriodSeconds == b.ReadinessProbe.PeriodSeconds, a.ReadinessProbe.FailureThreshold == b.ReadinessProbe.FailureThreshold)))
 	verifAssert("liveness_probe", verifAnd(a.LivenessProbe.HttpGet.Host == b.LivenessProbe.HttpGet.Host,
